@@ -1,8 +1,9 @@
 (** C09 - Integer arithmetic is exact at any size; operators follow the manual's rules.
     Property theorems only; proofs are in Proofs/NumExact.v.  Model: Val/Num.v (mirrors
     jaq-json/src/num.rs), tied to the code by the correspondence check of `jv check C09`. *)
-From Coq Require Import ZArith Bool.
-From JaqV Require Import Base.F64 Val.Num Proofs.NumExact.
+From Coq Require Import ZArith Bool List.
+From JaqV Require Import Base.F64 Base.Bytes Val.Num Val.Val Val.Err Val.Arith Proofs.NumExact Proofs.StringLaws Proofs.ArithLaws.
+Import ListNotations.
 Local Open Scope Z_scope.
 
 Theorem add_exact : forall x y a b, int_val x = Some a -> int_val y = Some b -> int_val (add x y) = Some (a + b).
@@ -63,3 +64,43 @@ Print Assumptions repr_independent_cmp.
 (** non-vacuity: a machine integer and a big integer with the same value *)
 Example repr_example : int_val (Int 3) = Some 3 /\ int_val (Big 3) = Some 3 /\ int_val (add (Int isize_max) (Int 1)) = Some two63.
 Proof. repeat split. Qed.
+
+(** ** the non-numeric cases (Val/Arith.v mirrors impl Add/Sub/Mul/Div/Rem for Val in jaq-json/src/lib.rs) *)
+
+(** null is neutral for [+] *)
+Theorem add_null_neutral : forall v, vadd Null v = Ok v /\ vadd v Null = Ok v.
+Proof. exact ArithLaws.add_null_neutral. Qed.
+Print Assumptions add_null_neutral.
+
+(** strings and arrays concatenate *)
+Theorem add_concatenates :
+  (forall a b, vadd (TStr a) (TStr b) = Ok (TStr (a ++ b))) /\ (forall a b, vadd (BStr a) (BStr b) = Ok (BStr (a ++ b)))
+  /\ (forall a b, vadd (Arr a) (Arr b) = Ok (Arr (a ++ b))).
+Proof. exact ArithLaws.add_concatenates. Qed.
+Print Assumptions add_concatenates.
+
+(** array [-] removes all elements equal to some element of the right operand and keeps the others in order *)
+Theorem array_minus : forall a b, exists c, vsub (Arr a) (Arr b) = Ok (Arr c)
+  /\ c = filter (fun v => negb (existsb (equal v) b)) a
+  /\ (forall v, In v c <-> In v a /\ forall w, In w b -> equal v w = false).
+Proof. exact ArithLaws.array_minus. Qed.
+Print Assumptions array_minus.
+
+(** string [/] splits with [join] as its inverse *)
+Theorem div_splits : forall s sep, exists ps, vdiv (TStr s) (TStr sep) = Ok (Arr (map TStr ps)) /\ intercalate sep ps = s.
+Proof. exact ArithLaws.div_splits. Qed.
+Print Assumptions div_splits.
+
+(** everything else is an error: each operator succeeds exactly on the shapes the manual lists; [%] by the integer zero fails *)
+Theorem operator_shapes : forall x y,
+  (if add_shape x y then exists v, vadd x y = Ok v else vadd x y = Err (EMath x Add y))
+  /\ (if sub_shape x y then exists v, vsub x y = Ok v else vsub x y = Err (EMath x Sub y))
+  /\ (if mul_shape x y then vmul x y <> Some (Err (EMath x Mul y)) else vmul x y = Some (Err (EMath x Mul y)))
+  /\ (if div_shape x y then exists v, vdiv x y = Ok v else vdiv x y = Err (EMath x Div y))
+  /\ (match x, y with
+      | Num a, Num b => if is_int a && is_int b && num_eqb b (Int 0) then vrem x y = Err (EMath x Rem y)
+                        else vrem x y = Ok (Num (Num.rem a b))
+      | _, _ => vrem x y = Err (EMath x Rem y)
+      end).
+Proof. exact ArithLaws.operator_shapes. Qed.
+Print Assumptions operator_shapes.
